@@ -140,11 +140,12 @@ package cluster
 //@ func Forking
 //@   prop C16
 //@   havoc
-//@   modifies @NEXT_IO, @NEXT_INVOKE, ghost.spawned
+//@   modifies @NEXT_IO, @NEXT_INVOKE, ghost.spawned, ghost.chanrecv[*], ghost.chanlen[*]
 //@   requires ghost.ccof[ival(ctx)] != nil
 //@   let n = len(ghost.ccof[ival(ctx)].client.URLs)
 //@   stable ghost.ccof[ival(ctx)].client, ghost.ccof[ival(ctx)].client.URLs
-//@   loop 1 invariant 0 <= i && i <= n && ghost.spawned == old(ghost.spawned) + i && ghost.fwd == old(ghost.fwd)
+//@   loop 1 invariant 0 <= i && i <= n && ghost.spawned == old(ghost.spawned) + i && ghost.fwd == old(ghost.fwd) &&
+//@       done != nil && ghost.once_done[addr(once)] == 0 && ghost.chanclosed[done] == 0
 //@   ensures [no_servers_passthrough] n == 0 ==> ghost.fwd == old(ghost.fwd) + 1 && ghost.spawned == old(ghost.spawned)
 //@   ensures [one_worker_per_server] n > 0 ==> ghost.spawned == old(ghost.spawned) + n
 
@@ -168,6 +169,6 @@ package cluster
 //@   requires ghost.ccof[ival(ctx)] != nil
 //@   let n = len(ghost.ccof[ival(ctx)].client.URLs)
 //@   stable ghost.ccof[ival(ctx)].client, ghost.ccof[ival(ctx)].client.URLs
-//@   loop 1 invariant 0 <= i && i <= n && ghost.spawned == old(ghost.spawned) + i && ghost.fwd == old(ghost.fwd)
+//@   loop 1 invariant 0 <= i && i <= n && ghost.spawned == old(ghost.spawned) + i && ghost.fwd == old(ghost.fwd) && len(result) == n
 //@   ensures [no_servers_passthrough] n == 0 ==> ghost.fwd == old(ghost.fwd) + 1 && ghost.spawned == old(ghost.spawned)
 //@   ensures [one_worker_per_server] n > 0 ==> ghost.spawned == old(ghost.spawned) + n
